@@ -439,8 +439,10 @@ class Repo:
             name = ".".join(parts)
             self.modules[name] = Module(self, name, p, is_pkg)
         self._inline_named_constants()
+        self._inline_class_tuples()
         self._positional_calls()
         self._inline_private_helpers()
+        self._flatten_genexp_loops()
         self._unroll_literal_loops()
         self._inline_field_aliases()
         self._short_index: Dict[str, List[FunctionInfo]] = {}
@@ -451,6 +453,38 @@ class Repo:
             for c in m.classes.values():
                 self._class_index.setdefault(c.name, []).append(c)
         self.dynamic_inventory = self._dynamic_inventory()
+
+    def _inline_class_tuples(self):
+        """`isinstance(x, _GEO_TYPES)` with  _GEO_TYPES = (Point, Line, ...)  bound once at module level (never re-bound) is read as
+        `isinstance(x, (Point, Line, ...))`, also when the name is imported from another module of the package and every class
+        name means the same class at the place of use."""
+        import copy
+        for fi in self.functions(include_visualization=False):
+            for c in ast.walk(fi.node):
+                if not (isinstance(c, ast.Call) and isinstance(c.func, ast.Name) and c.func.id in ("isinstance", "issubclass") and len(c.args) == 2
+                        and isinstance(c.args[1], ast.Name)):
+                    continue
+                nm = c.args[1].id
+                if any(isinstance(x, ast.Name) and x.id == nm and isinstance(x.ctx, (ast.Store, ast.Del)) for x in ast.walk(fi.node)) or nm in fi.params:
+                    continue
+                b = fi.resolve(nm)
+                if b is None or b.kind != "var":
+                    continue
+                mod, name = b.target[0], b.target[1]
+                vals = mod.assigns.get(name, [])
+                if len(vals) != 1 or not isinstance(vals[0], ast.Tuple) or not vals[0].elts \
+                        or not all(isinstance(e, ast.Name) for e in vals[0].elts):
+                    continue
+                if any(isinstance(n, ast.Global) and name in n.names for n in ast.walk(mod.tree)):
+                    continue
+                ok = True
+                for e in vals[0].elts:
+                    bm, bc = mod.resolve(e.id), fi.resolve(e.id)
+                    if bm is None or bm.kind != "class" or bc is None or bc.kind != "class" or bm.target is not bc.target:
+                        ok = False
+                if ok:
+                    c.args[1] = ast.copy_location(copy.deepcopy(vals[0]), c.args[1])
+            ast.fix_missing_locations(fi.node)
 
     def _inline_named_constants(self):
         """module-level names bound ONCE to a numeric constant expression and never re-bound (no `global` in any function
@@ -563,9 +597,11 @@ class Repo:
                             continue
                         if sum(1 for x in ast.walk(n) if isinstance(x, ast.If) and any(isinstance(y, ast.Return) for y in ast.walk(x))) > 5:
                             continue
-                    # stores into the receiver's fields stay method calls (effects / field tables are keyed by the method)
+                    # methods that store into fields stay method calls (validation / effect rules are keyed by the method) -- except
+                    # plain setters: a few straight-line statements without control flow (`self.line = Line(a, b)`)
                     if any(isinstance(x, ast.Attribute) and isinstance(x.ctx, (ast.Store, ast.Del)) for x in ast.walk(n)):
-                        continue
+                        if len(body) > 4 or any(isinstance(x, (ast.If, ast.For, ast.While, ast.Raise, ast.Return, ast.Assert)) for x in ast.walk(n)):
+                            continue
                     cands[f.qual] = f
                     by_method.setdefault(f.name, []).append(f)
 
@@ -921,6 +957,49 @@ class Repo:
             ast.fix_missing_locations(fi.node)
         for fi in self.functions():
             fi._local_imports = None  # (a spliced helper may have brought a function-level import with it)
+
+    def _flatten_genexp_loops(self):
+        """`for v in (E(x) for x in C): body`  ->  `for x in C: v = E(x); body` -- a loop over a generator expression with one
+        generator and no filter runs E and the body alternately, element by element, exactly like the flattened loop (inlined
+        accumulation helpers such as `_running_total(s.length() for s in self.segment_set)` produce this form).  Only when
+        the comprehension variable is not otherwise a local of the function and the loop has no else clause."""
+        for fi in self.functions(include_visualization=False):
+            locals_ = {x.id for x in ast.walk(fi.node) if isinstance(x, ast.Name) and isinstance(x.ctx, (ast.Store, ast.Del))} | set(fi.params)
+            changed = False
+            for lp in [n for n in ast.walk(fi.node) if isinstance(n, ast.For)]:
+                it = lp.iter
+                if not (isinstance(it, ast.GeneratorExp) and len(it.generators) == 1 and not it.generators[0].ifs
+                        and not it.generators[0].is_async and not lp.orelse and isinstance(lp.target, ast.Name)):
+                    continue
+                g = it.generators[0]
+                gvars = {x.id for x in ast.walk(g.target) if isinstance(x, ast.Name)}
+                # (comprehension variables are not function locals: a clash means the name is used for something else too)
+                outside = {x.id for x in ast.walk(fi.node) if isinstance(x, ast.Name) and isinstance(x.ctx, (ast.Store, ast.Del))
+                           and not any(x is y for y in ast.walk(it))}
+                if gvars & (outside | set(fi.params)) or lp.target.id in gvars:
+                    continue
+                vname = lp.target.id
+                uses = [x for b_ in lp.body for x in ast.walk(b_) if isinstance(x, ast.Name) and x.id == vname]
+                used_after = any(isinstance(x, ast.Name) and x.id == vname and not any(x is y for y in ast.walk(lp)) for x in ast.walk(fi.node))
+                if len(uses) == 1 and isinstance(uses[0].ctx, ast.Load) and not used_after:
+                    # the value is used once: written in place (`total += segment.length()`)
+                    import copy as _copy
+                    elt = it.elt
+
+                    class _One(ast.NodeTransformer):
+                        def visit_Name(self, n_):
+                            if n_ is uses[0]:
+                                return _copy.deepcopy(elt)
+                            return n_
+                    lp.body = [_One().visit(b_) for b_ in lp.body]
+                else:
+                    first = ast.copy_location(ast.Assign(targets=[ast.Name(id=vname, ctx=ast.Store())], value=it.elt), lp)
+                    lp.body = [first] + list(lp.body)
+                lp.target = g.target
+                lp.iter = g.iter
+                changed = True
+            if changed:
+                ast.fix_missing_locations(fi.node)
 
     def _unroll_literal_loops(self):
         """`for x, t in zip((a, b), (Point, Vector)): body` and `for x in (a, b): body` -- a loop over a literal tuple / list (or a
